@@ -200,8 +200,10 @@ theorem modes_itemsRel_dict (vf : Bool) (k v k' v' : Val → Outcome Val) (kvs :
     · exact All₂.cons ⟨rfl, hp.1⟩ (All₂.cons ⟨rfl, hp.2⟩ ih')
     · exact All₂.cons ⟨rfl, hp.2⟩ (All₂.cons ⟨rfl, hp.1⟩ ih')
 
-theorem modes_itemsRel_model (hok : ∀ v, R (.ok v) (.ok v)) (herr : ∀ e, R (.err e) (.err e))
-    (fl fl' : Field → Val → Outcome Val) (kvs : List (Val × Val)) (missing : List String)
+theorem modes_itemsRel_model (fl fl' : Field → Val → Outcome Val) (kvs : List (Val × Val))
+    (missing : List String) (hok : ∀ v, R (.ok v) (.ok v))
+    (herr : R (.err (LErr.leafD "NoRequiredFieldsLoadError" (.dict kvs) missing))
+      (.err (LErr.leafD "NoRequiredFieldsLoadError" (.dict kvs) missing)))
     (fields : List Field) (reported : Bool)
     (h : ∀ f ∈ fields, ∀ v, Val.lookup (.str f.name) kvs = some v → R (fl f v) (fl' f v)) :
     ItemsRel R (modelItems fl kvs missing fields reported) (modelItems fl' kvs missing fields reported) := by
@@ -216,7 +218,7 @@ theorem modes_itemsRel_model (hok : ∀ v, R (.ok v) (.ok v)) (herr : ∀ e, R (
       by_cases hr : f.required
       · by_cases hrep : reported
         · simp only [hr, hrep, if_true]; exact ih' _
-        · simp only [hr, hrep, if_true]; exact All₂.cons ⟨rfl, herr _⟩ (ih' _)
+        · simp only [hr, hrep, if_true]; exact All₂.cons ⟨rfl, herr⟩ (ih' _)
       · simp only [hr]; exact All₂.cons ⟨rfl, hok _⟩ (ih' _)
 
 end transport
